@@ -30,9 +30,12 @@ class Response(object):
         status_line = next(lines, b'')
         tokens = iter(status_line.split(None, 2))
         self.http_ver = next(tokens, b'').decode('ascii', 'replace')
-        try:
-            self.status_code = int(next(tokens, b''))
-        except ValueError:
+        status_code = next(tokens, b'')
+        # A status code is exactly three digits. int() alone would
+        # also take '+101', '0101' or '1_01' for 101.
+        if len(status_code) == 3 and status_code.isdigit():
+            self.status_code = int(status_code)
+        else:
             self.status_code = None
         self.status = next(tokens, b'').decode('ascii', 'replace')
 
